@@ -507,9 +507,9 @@ theorem step_store (s : St L) (p : ModPath) (hI : Inv L E s) :
   · intro q rows hq
     rw [alookup_append, hq]
 
-theorem preprocess_spec (s : St L) (p : ModPath) (hN : GoodName p) (hI : Inv L E s) (hp : p ∈ s.mods) :
-    Inv L E (preprocess L E s p).2 ∧ Touches L p s (preprocess L E s p).2 := by
-  unfold preprocess
+theorem preprocessCore_spec (s : St L) (p : ModPath) (hN : GoodName p) (hI : Inv L E s) (hp : p ∈ s.mods) :
+    Inv L E (preprocessCore L E s p).2 ∧ Touches L p s (preprocessCore L E s p).2 := by
+  unfold preprocessCore
   by_cases hm : hasModule s.db p = true
   · simp only [hm, if_true]
     exact ⟨hI, Touches.refl L p s⟩
@@ -564,6 +564,91 @@ theorem preprocess_spec (s : St L) (p : ModPath) (hN : GoodName p) (hI : Inv L E
           · obtain ⟨hI4, hT4⟩ := step_store L E _ p hI3
             exact ⟨hI4, (hT1.trans L hT2).trans L (hT3.trans L hT4)⟩
           · exact ⟨hI3, (hT1.trans L hT2).trans L hT3⟩
+
+/-- the identity step only records that the imports of `p` have been loaded -/
+theorem identStep_spec (s : St L) (p : ModPath) :
+    ∃ i', (identStep L E s p).2 = { s with ident := i' } ∧ (∀ x, x ∈ s.ident → x ∈ i') ∧
+      (onDisk E p = true → p ∈ i') := by
+  unfold identStep
+  by_cases h1 : (!onDisk E p) = true
+  · simp only [h1, if_true]
+    exact ⟨s.ident, rfl, fun _ h => h, fun h2 => by simp [h2] at h1⟩
+  · simp only [h1, if_false, Bool.false_eq_true]
+    exact ⟨addIfAbsent s.ident p, rfl, fun x hx => mem_addIfAbsent.2 (Or.inl hx), fun _ => mem_addIfAbsent.2 (Or.inr rfl)⟩
+
+theorem inv_ident (s : St L) (i' : List ModPath) (hI : Inv L E s) : Inv L E { s with ident := i' } :=
+  ⟨hI.memo, hI.tree, hI.ast, hI.tags, hI.stored, hI.completed, hI.eps⟩
+
+theorem preprocess_spec (s : St L) (p : ModPath) (hN : GoodName p) (hI : Inv L E s) (hp : p ∈ s.mods) :
+    Inv L E (preprocess L E s p).2 ∧ Touches L p s (preprocess L E s p).2 := by
+  unfold preprocess
+  by_cases hm : hasModule s.db p = true
+  · simp only [hm, if_true]
+    exact ⟨hI, Touches.refl L p s⟩
+  · simp only [hm, if_false, Bool.false_eq_true]
+    obtain ⟨i', hs1, _, _⟩ := identStep_spec L E s p
+    generalize identStep L E s p = r at hs1
+    obtain ⟨rr, s1⟩ := r
+    simp only at hs1
+    subst hs1
+    have hT0 : Touches L p s ({ s with ident := i' } : St L) := ⟨rfl, rfl, rfl, rfl, fun _ _ => rfl, fun _ _ => rfl, fun _ _ => Iff.rfl, fun _ _ h => h⟩
+    cases rr with
+    | error e => exact ⟨inv_ident L E s i' hI, hT0⟩
+    | ok u =>
+      obtain ⟨a, b⟩ := preprocessCore_spec L E _ p hN (inv_ident L E s i' hI) hp
+      exact ⟨a, hT0.trans L b⟩
+
+theorem preprocessCore_ident (s : St L) (p : ModPath) : (preprocessCore L E s p).2.ident = s.ident := by
+  unfold preprocessCore
+  split
+  · rfl
+  · split
+    · rfl
+    · split
+      · rfl
+      · simp only
+        generalize L.expand p _ (alookup s.db) = r
+        cases r.2 with
+        | some e => rfl
+        | none => simp only; split <;> rfl
+
+/-- `preprocess` only extends the memoised identities, and memoises the one of `p` when it succeeds -/
+theorem preprocess_ident (s : St L) (p : ModPath) :
+    (∀ x, x ∈ s.ident → x ∈ (preprocess L E s p).2.ident) ∧
+    ((preprocess L E s p).1 = .ok () → onDisk E p = true → p ∈ (preprocess L E s p).2.ident) := by
+  unfold preprocess
+  by_cases hm : hasModule s.db p = true
+  · simp only [hm, if_true]
+    exact ⟨fun _ h => h, fun h => by cases h⟩
+  · simp only [hm, if_false, Bool.false_eq_true]
+    obtain ⟨i', hs1, hmono, hp⟩ := identStep_spec L E s p
+    generalize identStep L E s p = r at hs1
+    obtain ⟨rr, s1⟩ := r
+    simp only at hs1
+    subst hs1
+    cases rr with
+    | error e => exact ⟨hmono, fun h => by cases h⟩
+    | ok u =>
+      simp only
+      rw [preprocessCore_ident]
+      exact ⟨hmono, fun _ h => hp h⟩
+
+theorem epLoad_ident (s : St L) (p : ModPath) : (epLoad L E s p).2.ident = s.ident := by
+  unfold epLoad
+  split
+  · rfl
+  · have : (parseModule L E s p).2.ident = s.ident := by
+      unfold parseModule
+      split
+      · split
+        · split <;> rfl
+        · rfl
+      · split
+        · rfl
+        · split <;> rfl
+    generalize parseModule L E s p = pm at this
+    obtain ⟨r, s1⟩ := pm
+    cases r <;> exact this
 
 /-! ## unload with its cascade -/
 
@@ -723,11 +808,51 @@ theorem unload_not_mem (s : St L) (m : ModPath) : m ∉ (unload L E s m).mods :=
       exact foldl_ind L (fun s' => m ∉ s'.mods) _ (fun s' d hs => unloadF_not_mem L E f s' d m hs) _ _ (unloadOne_not_mem L s m)
   · exact unloadF_not_mem L E _ s m m hm
 
+/-- the memoised identities of the modules that stay registered stay -/
+theorem unload_ident (s : St L) (m : ModPath) : ∀ x, x ∈ (unload L E s m).mods → x ∈ s.ident → x ∈ (unload L E s m).ident :=
+  unloadF_ind L E (fun s' => ∀ x, x ∈ s'.mods → x ∈ s.ident → x ∈ s'.ident)
+    (fun s' m' h x hx hi => by
+      simp only [unloadOne, List.mem_filter, decide_eq_true_eq] at hx ⊢
+      exact ⟨h x hx.1 hi, hx.2⟩) _ s m (fun _ _ h => h)
+
 theorem unload_inv (s : St L) (m : ModPath) (hI : Inv L E s) : Inv L E (unload L E s m) :=
   unloadF_ind L E (Inv L E) (fun s' m' h => unloadOne_inv L E s' m' h) _ s m hI
 
 theorem unload_epsSub (s : St L) (m : ModPath) (hE : EpsSub L s) : EpsSub L (unload L E s m) :=
   unloadF_ind L E (EpsSub L) (fun s' m' h => unloadOne_epsSub L s' m' h) _ s m hE
+
+/-- THE CASCADE FUEL SUFFICES: once the fuel is at least the number of registered modules, more fuel changes nothing
+    (every level of the recursion removes one module, so the `0` case is never reached with a registered module) -/
+theorem unloadF_fuel_succ : ∀ f (s : St L) m, s.mods.length ≤ f → unloadF L E f s m = unloadF L E (f + 1) s m := by
+  intro f
+  induction f with
+  | zero =>
+    intro s m hlen
+    have hnil : s.mods = [] := List.length_eq_zero_iff.1 (Nat.le_zero.1 hlen)
+    simp [unloadF, hnil]
+  | succ f ih =>
+    intro s m hlen
+    rw [unloadF, unloadF]
+    by_cases hm : m ∈ s.mods
+    · simp only [hm, if_true]
+      have hlen1 : (unloadOne L s m).mods.length ≤ f := Nat.le_of_lt_succ (Nat.lt_of_lt_of_le (unloadOne_len L s m hm) hlen)
+      have fold : ∀ (D : List ModPath) (s' : St L), s'.mods.length ≤ f →
+          D.foldl (fun s d => unloadF L E f s d) s' = D.foldl (fun s d => unloadF L E (f + 1) s d) s' := by
+        intro D
+        induction D with
+        | nil => intro s' _; rfl
+        | cons d rest ihD =>
+          intro s' hl
+          simp only [List.foldl]
+          rw [← ih s' d hl]
+          exact ihD _ (Nat.le_trans (unloadF_sub L E f s' d).len hl)
+      exact fold _ _ hlen1
+    · simp only [hm, if_false]
+
+theorem unloadF_fuel (s : St L) (m : ModPath) (k : Nat) : unloadF L E (s.mods.length + k) s m = unload L E s m := by
+  induction k with
+  | zero => rfl
+  | succ k ih => rw [← ih, ← Nat.add_assoc, ← unloadF_fuel_succ L E _ s m (Nat.le_add_right _ _)]
 
 /-- no remaining module imports a removed one (`W`: modules still waiting to be unloaded) -/
 def Dang (s₀ s : St L) (W : List ModPath) : Prop :=
